@@ -161,6 +161,9 @@ def run(ctx):
                                {x: "any" for x in names})
             cases.append({"prog": prog, "text": gen.render(prog, rng, "plain"), "envs": [{x: "v%d%s" % (k, x[-1]) for x in names} for k in range(6)]})
     progcases.run_cases(ctx, cases, want_stages=False)
+    # every one of very many splitter fields reaches the key
+    import random
+    progcases.run_cases(ctx, gen.many_splitter_cases(random.Random(ctx.seed), None if ctx.tier == 'thorough' else [129, 130, 258, 388, 513]), check_model=False, want_stages=False)
 
 
 def search(ctx):
